@@ -21,7 +21,7 @@ import (
 // controller collected it, it still exists (terminating) when the template comes back. One replica set per
 // template while one exists: the terminating one is re-used, no second one is created for the same template.
 func TestC13Revert(t *testing.T) {
-	rec := evid.New("TestC13Revert", "C13", "1-3 nodes, no canary or a manual canary validated by the user; template X rolled out, its replica set given a finalizer by another component, template Y rolled out (the controller collects X's empty set, which stays terminating), then the template goes back to X before / after the finalizer is released, optionally via a third template; monitors rs-identity (no second replica set for a template while one exists, template = hash = pod hash), rs-gc, status function after every reconcile; non-trivial = X's replica set was terminating when X came back; distinct by configuration")
+	rec := evid.New("TestC13Revert", "C13", "1-3 nodes, no canary or a manual canary validated by the user; template X rolled out, its replica set given a finalizer by another component, template Y rolled out (the controller collects X's empty set, which stays terminating), then the template goes back to X before / after the finalizer is released, optionally via a third template; one creation of a replica set optionally refused or stored-but-answered-with-an-error (generic or typed); monitors rs-identity (no second replica set for a template while one exists, template = hash = pod hash), rs-gc, status function after every reconcile; non-trivial = X's replica set was terminating when X came back; distinct by configuration")
 	t.Cleanup(func() {
 		if !t.Failed() {
 			rec.Done()
@@ -32,11 +32,25 @@ func TestC13Revert(t *testing.T) {
 		canary := rapid.Bool().Draw(rt, "manualCanary")
 		letters := rapid.SampledFrom([]string{"ABA", "ACA", "BAB", "ABCA", "IJI"}).Draw(rt, "templates")
 		release := rapid.SampledFrom([]string{"after-revert", "after-revert", "before-revert", "never"}).Draw(rt, "finalizerReleased")
-		cfgDesc := fmt.Sprintf("nodes=%d manualCanary=%v templates=%s release=%s", nodes, canary, letters, release)
+		// the answer to one creation of a replica set may be an error: refused (generic error or AlreadyExists), or
+		// stored and answered with an error all the same (generic, or ServerTimeout as for a write whose answer timed out)
+		rsCreateAnswer := rapid.SampledFrom([]sim.FaultKind{sim.FaultNone, sim.FaultNone, sim.FaultReject, sim.FaultRejectTyped, sim.FaultLostAnswer, sim.FaultLostAnswerTyped}).Draw(rt, "oneReplicaSetCreateAnswer")
+		faultedCreate := rapid.IntRange(1, 3).Draw(rt, "faultedReplicaSetCreate")
+		cfgDesc := fmt.Sprintf("nodes=%d manualCanary=%v templates=%s release=%s replicaSetCreate#%d=%s", nodes, canary, letters, release, faultedCreate, rsCreateAnswer)
 		var viol []mon.V
 		w := &World{rec: rec, cfg: WorldCfg{Monitors: mon.Of("rs-identity", "rs-gc", "status-function", "promotion-rule", "no-panic"), Property: "C13"}, H: mon.NewHistory(), RSSeen: map[string]bool{}, RolesSynced: map[string]bool{}, Facts: map[string]int{}, lastSyncAt: map[string]time.Time{}, Det: true}
 		w.OnViolation = func(vs []mon.V) { viol = append(viol, vs...) }
 		w.C = sim.New(sim.Options{})
+		rsCreates := 0
+		w.C.Faults = func(call *sim.Call) sim.FaultKind {
+			if call.Kind == "ExtendedDaemonSetReplicaSet" && call.Verb == "create" {
+				rsCreates++
+				if rsCreates == faultedCreate {
+					return rsCreateAnswer
+				}
+			}
+			return sim.FaultNone
+		}
 		for i := 0; i < nodes; i++ {
 			w.C.AddNode(fmt.Sprintf("n%d", i+1), map[string]string{"zone": "a", "tier": "a"}, nil)
 		}
